@@ -7,7 +7,7 @@ RULE = (
     "case = (scenario in {stage+transfer into a local store with state, index save of nested directories (every directory with an entry, or only the top-level ones; copying or with hardlink=True), store-to-store transfer (plain, expanded, or keeping a destination index), store-to-store "
     "transfer, upload staging, plain add of hashed files}, generated nested tree with duplicates and empty files, kill point n, "
     "plain or partial); the child process os._exit()s before the n-th filesystem-mutating audit event it issues under the "
-    "scenario root (quick: two trees per scenario (one for the two newest scenarios; two more, object-name events only, for the scenarios with a link-attempt window), every 25th event plus every event that touches a final object name (and the one after it); "
+    "scenario root (quick: two trees per scenario (one for the two newest scenarios; two more, object-name events only, for the scenarios with a link-attempt window), every 30th event plus every event that touches a final object name (and the one after it); "
     "thorough: every event), optionally after writing half of a copy or creating the file being opened; the parent audits the "
     "store, the state DB and closure, re-runs the operation in a fresh process and compares with an uninterrupted golden run.  "
     "non-trivial = the child really died at the kill point; distinct = (scenario, tree, n, variant)"
@@ -27,10 +27,10 @@ SCENARIOS = ["stage-transfer", "index-save", "store-to-store", "upload-staging",
 
 def run_shard(ctx):
     per = 2 if ctx.tier == "quick" else 8
-    every = 25 if ctx.tier == "quick" else 1
+    every = 30 if ctx.tier == "quick" else 1
     jobs = []
     for t in range(per):
-        for sc in (SCENARIOS if (ctx.tier != "quick" or t == 0) else SCENARIOS[:7]):
+        for sc in (SCENARIOS if (ctx.tier != "quick" or t == 0) else SCENARIOS[:4]):
             if ctx.tier == "quick" and sc == "store-to-store-index-jobs":
                 continue  # quick: once, below, at the object-name events only
             jobs.append((sc, t, every))
